@@ -4,6 +4,7 @@ import Resolvo.Drv.Amo
 import Resolvo.Drv.Solve
 import Resolvo.Drv.Cache
 import Resolvo.Drv.Pool
+import Resolvo.Drv.Snapshot
 open Resolvo.Drv
 
 def runCase (c : Case) : List String :=
@@ -13,12 +14,15 @@ def runCase (c : Case) : List String :=
   | "solve" => runSolve c.lines
   | "cache" => runCache c.lines
   | "pool" => runPool c.lines
+  | "snapshot" => runSnapshot c.lines
   | "soft" => runSolve c.lines
   | "lazy" => runSolve c.lines
   | "cancel" => runSolve c.lines
   | "reuse" => runSolve c.lines
   | "reuse-async" => runSolve c.lines
   | "async" => runSolve c.lines
+  | "amo-solve" => runSolve c.lines
+  | "async-cf" => runSolve c.lines
   | "conflictfree" => runSolve c.lines
   | f => [s!"unknown-family {f}"]
 
